@@ -42,7 +42,14 @@ Definition root_eqb (a b : rootmd) : bool :=
 Inductive c13case :=
 | C13T (ops : list top) (obs : list (option merr * targets)) (roundtrip_ok migrate_ok : bool)
 | C13R (ops : list rop) (obs : list (option merr * rootmd)) (roundtrip_ok migrate_ok : bool)
+  (* a loaded policy state: per rule file its user rule names; did loading refuse it as holding a
+     duplicated rule name; State.HasRuleName for some names *)
+| C13Names (files : list (bytes * list bytes)) (refused_dup : bool) (loaded : bool) (queries : list (bytes * bool))
 | C13Panic.
+
+Definition all_rule_names (files : list (bytes * list bytes)) : list bytes := flat_map snd files.
+Fixpoint has_dup (l : list bytes) : bool :=
+  match l with [] => false | x :: l' => existsb (beq x) l' || has_dup l' end.
 
 (** the property on the implementation's own trace: invariant after every step; a refused edit
     leaves the metadata unchanged *)
@@ -79,6 +86,14 @@ Fixpoint ragree (m : rootmd) (ops : list rop) (obs : list (option merr * rootmd)
 Definition c13_check (c : c13case) : verdict :=
   match c with
   | C13Panic => VSpec 9
+  | C13Names files refused loaded queries =>
+      (* user rule names stay unique across all rule files: a state holding a duplicate is refused;
+         a loaded state answers "is this name taken" exactly *)
+      let names := all_rule_names files in
+      if has_dup names then (if refused then VOk else VSpec 6)
+      else if refused then VSpec 6
+      else if negb loaded then VMismatch 6
+      else if forallb (fun q => Bool.eqb (snd q) (existsb (beq (fst q)) names)) queries then VOk else VSpec 6
   | C13T ops obs rt mg =>
       if negb (ttrace_ok new_targets obs) then VSpec 1
       else if negb rt then VSpec 3 else if negb mg then VSpec 4
